@@ -333,7 +333,7 @@ pub fn run(mode: Mode) -> i32 {
     let seed = ctx.seed;
     let maxlen = ctx.tier.pick(160usize, 400);
     let modestr = if mode == Mode::Leak { "leak" } else { "tamper" };
-    ctx.rule = format!("single-fault enumeration: for every base case (family in {{secretbox, box, sealedbox, stream}} x message length 0..={} x key alphabet) every member of the fault family — each bit of the wire (tag/MAC, body, sealed-box ephemeral key, stream tag byte), each bit of nonce / symmetric or precomputed key / stream header / associated data, AD present<->absent, truncation to every shorter length, extension by 1..=17,32,64 bytes of 00/ff/repeat-last — plus the untampered control, is applied once and presented to every open form of that family ({} AEAD forms + 2 stream forms); {}; long messages (1023..16385 bytes quick, up to 256 KiB thorough) with the structural fault family (control, truncations, extensions, key/nonce/header/AD faults, both edge bits of every component edge and of every 64*2^k / 1 KiB boundary +-1,+-17); non-trivial = (base, fault, form) triple executed (NA pairs, e.g. a detached form on a wire shorter than a tag, are counted as evaluations but not as non-trivial)", maxlen, OPEN.len(),
+    ctx.rule = format!("single-fault enumeration: for every base case (family in {{secretbox, box, sealedbox, stream}} x message length 0..={} x key alphabet) every member of the fault family — each bit of the wire (tag/MAC, body, sealed-box ephemeral key, stream tag byte), each bit of nonce / symmetric or precomputed key / stream header / associated data, AD present<->absent, truncation to every shorter length, extension by 1..=17,32,64 bytes of 00/ff/repeat-last — plus the untampered control, is applied once and presented to every open form of that family ({} AEAD forms + 2 stream forms); {}; long messages (1023..16385 bytes quick, up to 256 KiB thorough) with the structural fault family (control, truncations, extensions, key/nonce/header/AD faults, both edge bits of every component edge and of every 64*2^k / 1 KiB boundary +-1,+-17); heap container open forms (nightly build) on the reduced grid base lengths 0..=24, both edge bits of every byte, long lengths {{1024, 4097}}; locked container forms on base lengths {{0,1,17}} with one fault per component edge; non-trivial = (base, fault, form) triple executed (NA pairs, e.g. a detached form on a wire shorter than a tag, are counted as evaluations but not as non-trivial)", maxlen, open_all().len(),
         if mode == Mode::Leak { "oracle: after Err the caller's message buffer (prefilled with a sentinel; the submitted ciphertext for in-place forms) and the stream tag variable are byte-identical to what they were, or all zero" } else { "oracle: control => Ok(original message); every fault => Err (a panic is a violation); libsodium's verdict on the same faulty input must agree" });
     ctx.assume("a flipped key bit is rejected only with probability 1-2^-128 in principle; accepted as residual");
     ctx.assume("public/secret key bits of the box forms are not flipped (clamped / masked bits leave the key unchanged); the precomputed key is");
@@ -354,7 +354,7 @@ pub fn run(mode: Mode) -> i32 {
         let ks = Keys::make(seed, ki, (ki + 1) % 5);
         let m = cval(seed, 2 + (len % 2), len);
         let wire = ref_wire(fam, &ks, &m);
-        let forms: Vec<_> = OPEN.iter().filter(|o| o.1 == fam).collect();
+        let forms: Vec<_> = open_all().iter().filter(|o| o.1 == fam).collect();
         for fault in aead_faults(fam, wire.len()) {
             let (k2, w2) = apply_aead(&fault, &ks, &wire);
             let fclass = fault_class(&fault, overhead(fam), wire.len());
@@ -369,6 +369,26 @@ pub fn run(mode: Mode) -> i32 {
             for o in &forms {
                 if fam == Fam::Bx && matches!(fault, Fault::KeyBit(_)) && !uses_pre(o.0) {
                     continue;
+                }
+                // heap container forms: base lengths 0..=24 and both edge bits of every byte
+                if is_heavy(o.0) && (len > 24 || ki != 3 || matches!(fault, Fault::WireBit(b) | Fault::NonceBit(b) | Fault::KeyBit(b) if b % 8 != 0 && b % 8 != 7)) {
+                    continue;
+                }
+                // locked container forms: base lengths {0,1,17}, one fault per component edge
+                if weight(o.0) == 2 {
+                    let wl = wire.len();
+                    let keep = match fault {
+                        Fault::None => true,
+                        Fault::WireBit(b) => [0, 7, 15 * 8, 16 * 8, 31 * 8, 32 * 8, 47 * 8, 48 * 8, (wl - 1) * 8 + 7].contains(&b),
+                        Fault::NonceBit(b) => b == 0 || b == 191,
+                        Fault::KeyBit(b) => b == 0 || b == 255,
+                        Fault::Trunc(n) => n + 1 == wl || n == 0 || n == 16,
+                        Fault::Extend(n, s) => (n == 1 || n == 16) && s == 0,
+                        _ => false,
+                    };
+                    if !keep || ![0usize, 1, 17].contains(&len) {
+                        continue;
+                    }
                 }
                 let out = (o.2)(&k2, &w2, SENTINEL);
                 let (oc, f) = judge(mode, prop, o.0, fam_name(fam), fclass, fault == Fault::None, &out, &m, sodium_ok);
@@ -461,7 +481,7 @@ pub fn run(mode: Mode) -> i32 {
             let fam = fams[fi];
             let ks = Keys::make(seed, 3, 1);
             let wire = ref_wire(fam, &ks, &m);
-            let forms: Vec<_> = OPEN.iter().filter(|o| o.1 == fam).collect();
+            let forms: Vec<_> = open_all().iter().filter(|o| o.1 == fam).collect();
             let mut faults = vec![Fault::None, Fault::Trunc(wire.len() - 1), Fault::Trunc(wire.len() - 16), Fault::Trunc(overhead(fam)), Fault::Extend(1, 0), Fault::Extend(16, 2), Fault::Extend(64, 1)];
             faults.extend(structural_bits(wire.len()).into_iter().map(Fault::WireBit));
             if fam != Fam::Seal {
@@ -480,6 +500,12 @@ pub fn run(mode: Mode) -> i32 {
                 };
                 for o in &forms {
                     if fam == Fam::Bx && matches!(fault, Fault::KeyBit(_)) && !uses_pre(o.0) {
+                        continue;
+                    }
+                    if is_heavy(o.0) && !(len == 1024 || len == 4097) {
+                        continue;
+                    }
+                    if weight(o.0) == 2 && !matches!(fault, Fault::None | Fault::Trunc(_) | Fault::Extend(1, 0)) && !matches!(fault, Fault::WireBit(b) if b == 0 || b % 8192 == 7) {
                         continue;
                     }
                     let out = (o.2)(&k2, &w2, SENTINEL);
